@@ -93,7 +93,22 @@ pub fn long_token_inputs(top: u32) -> Vec<(String, String)> {
             if many_tokens.contains(name) && *n > 257 {
                 continue;
             }
-            v.push((format!("{} n={}", name, n), f(*n)));
+            let t = f(*n);
+            // the token where a separator or a closing delimiter is expected (the position at
+            // which the parser reports what it found), and as a well-placed element
+            if *n <= 70 || *n == 128 || *n == 256 {
+                for (ctx, text) in [
+                    ("after-list-element", format!("[1 {}]", t)),
+                    ("after-argument", format!("f(1 {})", t)),
+                    ("after-map-key", format!("{{1 {}}}", t)),
+                    ("after-then-branch", format!("true ? 1 {}", t)),
+                    ("as-list-element", format!("[{}, 1]", t)),
+                    ("after-open-paren", format!("(1 {}", t)),
+                ] {
+                    v.push((format!("{}:{} n={}", name, ctx, n), text));
+                }
+            }
+            v.push((format!("{} n={}", name, n), t));
         }
     }
     v
